@@ -69,8 +69,11 @@ REQUIRED_ORACLES = [
     "fold.operator", "fold.outcome-layout", "product-state.partial-trace", "product-gate.factorwise",
     "product-statistics", "embed.subsystems", "embed.physicality", "embed.statistics",
 ]
-MIN_EVALS = {"quick": 3000, "thorough": 30000}
+MIN_EVALS = {"quick": 5000, "thorough": 50000}
 WATCHDOG = {"quick": 900, "thorough": 3600}
+EXHAUSTIVE = {"quick": False, "thorough": True}
+EXHAUSTIVE_SCOPE = ("thorough enumerates every argument order x every grouping tree (flat, partial and full nestings) for 2-4 "
+                    "operands of every family and dimension pattern; operand values, names, bases and call forms are sampled")
 ASSUMPTIONS = [
     "a MatrixBasis product lists its elements row-major in argument order (the convention every vec in quara relies on)",
     "when outcome counts of the factors coincide (never in the driver) a layout is accepted if SOME assignment of "
@@ -778,37 +781,38 @@ def units(tier):
     two = list(itertools.product((2, 3), repeat=2))
     three = list(itertools.product((2, 3), repeat=3))
     for fam in ("State", "Povm", "Ensemble"):
+        ens = fam == "Ensemble"
         for d in two:
-            add(fam, d, reps=4 if q else 30)
+            add(fam, d, reps=4 if q else (20 if ens else 60))
         for d in three:
             D = prod(d)
             if fam == "State":
-                take = 9 if D == 27 else None
+                take = None
             elif fam == "Povm":
-                take = 6 if D == 27 else None
+                take = 9 if D == 27 else None
             else:
-                take = 18 if D == 8 else (9 if D == 12 else 6)
-            add(fam, d, reps=1 if q else (5 if D < 27 else 3), take=take if q else None)
-        add(fam, (2, 2, 2, 2), reps=1 if q else 2, take=(44 if fam != "Ensemble" else 22) if q else None)
+                take = 18 if D == 8 else 9
+            add(fam, d, reps=1 if q else ((5 if D < 27 else 3) if ens else (10 if D < 27 else 5)), take=take if q else None)
+        add(fam, (2, 2, 2, 2), reps=1 if q else (2 if ens else 4), take=(33 if ens else 88) if q else None)
     for fam in ("Gate", "MProcess", "GateMProcess"):
         for d in two:
             D = prod(d)
-            add(fam, d, reps=(3 if D == 4 else (2 if D == 6 else 1)) if q else (24 if D < 9 else 8))
-        add(fam, (2, 2, 2), reps=1 if q else 6)
+            add(fam, d, reps=(6 if D == 4 else (3 if D == 6 else 2)) if q else (40 if D < 9 else 12))
+        add(fam, (2, 2, 2), reps=1 if q else 10)
     for fam in ("Basis", "SparseBasis"):
         for d in two:
-            add(fam, d, reps=2 if q else 10)
+            add(fam, d, reps=2 if q else 20)
         for d in three:
-            add(fam, d, reps=1 if q else 3, take=(4 if prod(d) == 27 else 9) if q else None)
-        add(fam, (2, 2, 2, 2), reps=1, take=12 if q else 66)
+            add(fam, d, reps=1 if q else 6, take=(6 if prod(d) == 27 else 9) if q else None)
+        add(fam, (2, 2, 2, 2), reps=1, take=16 if q else None)
     # joint (entangled / multi-subsystem) factors: blocks of 2+1 subsystems, names interleaved or not
     for sub in ("State", "Povm"):
         for d in three:
-            add("Joint", d, reps=3 if q else 12, sub=sub, cost=1.3 * _COST[sub][prod(d)])
+            add("Joint", d, reps=4 if q else 16, sub=sub, cost=1.3 * _COST[sub][prod(d)])
     for sub in ("Gate", "MProcess"):
-        add("Joint", (2, 2, 2), reps=3 if q else 12, sub=sub, cost=.2 if sub == "Gate" else 1.0)
-    add("Embed", (3,), reps=40 if q else 600, q=1, cost=.5)
-    add("Embed", (3, 3), reps=2 if q else 16, q=2, cost=8.0)
+        add("Joint", (2, 2, 2), reps=4 if q else 16, sub=sub, cost=.2 if sub == "Gate" else 1.0)
+    add("Embed", (3,), reps=60 if q else 700, q=1, cost=.5)
+    add("Embed", (3, 3), reps=3 if q else 16, q=2, cost=8.0)
     return U
 
 
@@ -826,7 +830,7 @@ def unit_cases(u, seed):
 
 
 def shards(tier, seed):
-    target = 10.0 if tier == "quick" else 100.0  # seconds of estimated work per shard
+    target = 12.0 if tier == "quick" else 110.0  # seconds of estimated work per shard
     out = []
     for ui, u in enumerate(units(tier)):
         n = len(unit_cases(u, seed))
@@ -1014,7 +1018,7 @@ def run_product_case(ctx, J, ops, Q, fam, sub, dims, order, tree, rng):
     leaf_rho = [ref.rand_density(f.v.D, rng, int(rng.integers(1, f.v.D + 1))) for f in facs]
     rho_total = arr.combine(leaf_rho) if arr.kind == "op" else Arrange(_as_op(facs)).combine(leaf_rho)
     ordtag = "sorted" if arr.sorted else "unsorted"
-    if rf.t == "State" and st["ok"] is not None:
+    if rf.t == "State":
         rho = rf.at(())[0]
         pos = {n: i for i, n in enumerate(arr.names_sorted)}
         err = 0.0
